@@ -90,6 +90,10 @@ PARSER_GAPS = [
 # private-use code points standing for raw control characters inside string literals; they are
 # substituted AFTER the whitespace normalisation of main() (which would turn a TAB into a space)
 RAW_TAB, RAW_CR = "\ue000", "\ue001"
+# a LINE FEED inside a heredoc (heredocs have no escapes): generated ONLY in --hex mode, where a line of the output is the
+# hex of the real bytes; in text mode the production takes the next (one-line) construct instead
+RAW_LF = "\ue002"
+MODE = {"hex": False}
 
 MASK = (1 << 64) - 1
 
@@ -150,9 +154,12 @@ def ident(r):
     x = r.below(40)
     if x < 2:
         return "`" + r.pick(["weird name", "select", "a-b", "x.y", "1col", "ключ", "a'b", "a\\\\b", "tab\\tname", "a``b",
-                             "a\\`b", "日本", "x y z", "from", "{a}", "a\"b", "\\x41bc", "nul\\0x", "\\xffbad", "\\xc3\\x28", "a\\'b", "q\\\"q", "bell\\a", "bs\\b", "ff\\f", "vt\\v", "esc\\e", "\\x4A\\x6b", "un\\known"]) + "`"
+                             "a\\`b", "日本", "x y z", "from", "{a}", "a\"b", "\\x41bc", "nul\\0x", "\\xffbad", "\\xc3\\x28", "a\\'b", "q\\\"q", "bell\\a", "bs\\b", "ff\\f", "vt\\v", "esc\\e", "\\x4A\\x6b", "un\\known",
+                             # escaped quotes with a `;` behind them, still inside the name
+                             "a\\`;b", "a``;b", "x;y", "end\\`; DROP", "``;"]) + "`"
     if x < 4:
-        return '"' + r.pick(["quoted", "Order", "my col", "q\"\"q", "a\\\"b", "üñí", "a`b", "group"]) + '"'
+        return '"' + r.pick(["quoted", "Order", "my col", "q\"\"q", "a\\\"b", "üñí", "a`b", "group",
+                             "a\\\";b", "q\"\";q", "semi;colon", "\"\";"]) + '"'
     if x == 4:
         return r.pick(["“curly”", "_1", "x1_", "A", "ID", "Name", "a_1", "_"])
     if x == 5:
@@ -186,8 +193,27 @@ STR_BODIES = ["abc", "", "hello world", "it\\'s", "a\\\\b", "%x%", "2020-01-01",
               "SELECT 1", "\\\\n", "tab\\t", "\\x0b", "\\x4A\\x4b\\xAF", "\\xe2\\x82\\xac", "back\\\\", " nbsp", "it\\'s \\\"q\\\" \\\\ \\n \\t \\0 \\r"]
 
 
+# heredocs with awkward bodies: `;` (also at the end of a line), a lone `$`, multi-byte text, several lines.
+# An entry with RAW_LF is followed by one-line entries: text mode steps forward to the next one-line entry.
+HEREDOCS = ["$$a;$$", "$$line1;" + RAW_LF + "line2$$", "$$; DROP TABLE t; --$$", "$doc$SELECT 1;" + RAW_LF + "SELECT 2;" + RAW_LF + "$doc$",
+            "$tag$a; b$tag$", "$$a" + RAW_LF + RAW_LF + "b" + RAW_LF + "üñí 日本$$", "$$cost 5$ each; $ 6$$",
+            "$q$first;" + RAW_LF + "$ second" + RAW_LF + "last ü$q$", "$tag$5$ and $x$tag$", "$$" + RAW_LF + "$$", "$$üñí; 日本$$",
+            "$h$x;" + RAW_CR + RAW_LF + " y;" + RAW_CR + RAW_LF + "$h$", "$_1$;$_1$", "$a$/* not a comment; */ -- nor this" + RAW_LF + "'$a$",
+            "$a$/* not a comment; */ -- 'nor' this$a$", "$$;$$"]
+
+
+def heredoc(r):
+    i = r.below(len(HEREDOCS))
+    if not MODE["hex"]:
+        while RAW_LF in HEREDOCS[i]:
+            i = (i + 1) % len(HEREDOCS)
+    return HEREDOCS[i]
+
+
 def string_lit(r):
     x = r.below(60)
+    if x == 2:
+        return heredoc(r)
     if x == 0:
         # heredocs (no escapes inside), hex / binary strings, curly quotes
         return r.pick(["$$abc$$", "$$it's a \"heredoc\"$$", "$tag$a $$ b$tag$", "$$$$", "$q$\\n is not an escape here$q$",
@@ -345,6 +371,68 @@ AGG_TYPES = ["SimpleAggregateFunction(sum, UInt64)", "AggregateFunction(uniq, St
     + unless("type-func-param-newline", "AggregateFunction(groupConcat('\\n'), String)", "AggregateFunction(groupConcat('\\r\\n'), String)")
 
 
+# parameters of the aggregate function named inside AggregateFunction(...) / SimpleAggregateFunction(...): array and tuple
+# literals, strings, numbers, in several spacings (a type name is NOT the operand of `::`: the text between its brackets is
+# ordinary token layout, which a re-layout may change)
+AGG_PARAM_ARRAYS = ["[1, 4, 8]", "[1,4,8]", "[ 1, 4, 8 ]", "[1 ,2]", "[]", "[ ]", "[-1, 2]", "['a', 'b']", "['it\\'s', 'x;y']", "[[1, 2], [3]]", "[(1, 'a'), (2, 'b')]",
+                    "[1.5, 2e3]", "[NULL, 1]", "[0x10, 0b11]", "[toUInt8(1)]", "[18446744073709551616]", "['üñí']", "[[]]", "[1,]"]
+AGG_PARAM_TUPLES = ["(1, 2)", "(1,2)", "( 1 , 'a' )", "(1, (2, 3))", "('a', [1, 2])", "(1,)", "tuple(1, 2)", "(NULL, -1)", "()"]
+AGG_PARAM_STRINGS = ["'forward'", "'head'", "'(?1)(?2)'", "'strict_order'", "','", "'it\\'s'", "'a\\\\b'", "'tab\\t'", "''", "'üñí'", "'x;y'", "'(?1).*(?2)'",
+                     "'a''b'", "'nl\\n'", "$$here$$"]
+AGG_ARG_TYPES = ["UInt8", "UInt64", "String", "Float64", "DateTime", "Array(UInt8)", "Array(UInt64)", "Nullable(String)", "Date", "Tuple(UInt8, String)",
+                 "LowCardinality(String)", "DateTime64(3, 'UTC')", "Map(String, UInt64)", "Decimal(9, 2)", "Array(Array(String))", "Tuple(a UInt8, b String)",
+                 "Enum8('a' = 1, 'b' = 2)", "FixedString(4)", "Nullable(UInt8)"]
+
+
+def agg_param(r):
+    x = r.below(8)
+    if x < 3:
+        return r.pick(AGG_PARAM_ARRAYS)
+    if x == 3:
+        return r.pick(AGG_PARAM_TUPLES)
+    if x < 6:
+        return r.pick(AGG_PARAM_STRINGS)
+    return r.pick(["0.5", "0.9", "10", "3600", "-1", "1e-3", "0.99", "1", "true", "0x10"])
+
+
+def agg_type(r):
+    """AggregateFunction / SimpleAggregateFunction whose function takes parameters (arrays, tuples, strings, numbers)"""
+    x = r.below(16)
+    types = lambda lo, hi: ", ".join(r.pick(AGG_ARG_TYPES) for _ in range(lo + r.below(hi - lo + 1)))
+    head = r.pick(["AggregateFunction", "AggregateFunction", "AggregateFunction", "aggregatefunction"]) if x != 3 else "SimpleAggregateFunction"
+    if x == 0:
+        return head + "(sumMapFiltered(" + r.pick(AGG_PARAM_ARRAYS) + "), Array(" + r.pick(["UInt8", "UInt64", "String"]) + "), Array(UInt64))"
+    if x == 1:
+        return head + "(" + r.pick(["quantiles", "quantilesExact", "quantilesTDigest", "quantilesTiming"]) + "(" \
+            + ", ".join(r.pick(["0.5", "0.9", "0.99", "0.25", "1", "0", "0.999", ".5", "5e-1"]) for _ in range(1 + r.below(4))) + "), " + r.pick(["Float64", "UInt32", "Decimal(9, 2)", "DateTime"]) + ")"
+    if x == 2:
+        return head + "(sequenceNextNode(" + r.pick(["'forward', 'head'", "'backward', 'tail'", "'forward', 'first_match'", "'forward','head'", "'backward' , 'last_match'"]) \
+            + "), DateTime, " + r.pick(["String", "Nullable(String)"]) + ", UInt8" + r.pick(["", ", UInt8", ", UInt8, UInt8"]) + ")"
+    if x == 3:
+        return head + "(" + r.pick(["groupArrayArray(10)", "groupUniqArrayArray(3)", "sumMap", "minMap", "maxMap", "groupArrayArray", "anyLast", "max", "groupBitOr",
+                                    "sumWithOverflow", "any_respect_nulls", "groupArrayArray( 10 )"]) + ", " + r.pick(["Array(UInt8)", "Array(String)", "UInt64", "Tuple(Array(UInt8), Array(UInt64))",
+                                                                                                            "Nullable(String)", "Map(String, UInt64)"]) + ")"
+    if x == 4:
+        return head + "(" + r.pick(["sequenceMatch", "sequenceCount"]) + "(" + r.pick(["'(?1)(?2)'", "'(?1).*(?2)'", "'(?1)(?t>=3)(?2)'", "'(?1)(?t<=10;)(?2)'", "$$(?1)(?2)$$"]) + "), DateTime, UInt8, UInt8)"
+    if x == 5:
+        return head + "(windowFunnel(" + r.pick(["3600", "3600, 'strict_order'", "10, 'strict_deduplication', 'strict_increase'", "{w:UInt64}"]) + "), DateTime, UInt8, UInt8)"
+    if x == 6:
+        return head + "(" + r.pick(["groupArraySample(3, 42)", "groupArrayInsertAt('x', 5)", "groupArrayInsertAt([1, 2], 3)", "groupArrayInsertAt((1, 'a'), 3)", "groupArrayMovingSum(2)",
+                                    "groupArraySorted(5)", "groupArrayLast(3)", "uniqUpTo(4)", "topK(10, 'counts')", "topKWeighted(3, 2, 'counts')", "histogram(5)",
+                                    "largestTriangleThreeBuckets(4)", "kolmogorovSmirnovTest('two-sided', 'exact')", "mannWhitneyUTest('greater')", "studentTTest(0.95)",
+                                    "exponentialMovingAverage(0.5)", "categoricalInformationValue", "groupConcat(', ', 10)", "groupConcat('; ')", "approx_top_k(3, 100)"]) + ", " + types(1, 2) + ")"
+    if x == 7:
+        return head + "(" + r.pick(["sumMapFiltered", "sumMapFilteredWithOverflow", "f", "myAgg", "sumMapFiltered"]) + "(" \
+            + ", ".join(agg_param(r) for _ in range(1 + r.below(3))) + "), " + types(1, 3) + ")"
+    if x == 8:
+        # combinators, a version number first, nested function calls among the parameters
+        return head + "(" + r.pick(["quantilesIf(0.5, 0.9), Float64, UInt8", "sumMapFilteredArray([1, 2]), Array(Array(UInt8)), Array(Array(UInt8))",
+                                    "2, quantiles(0.5, 0.9), Float64", "1, sumMapFiltered([1, 4]), Array(UInt8), Array(UInt64)", "quantileTimingState(0.5), UInt32",
+                                    "f(g('a', [1]), (1, 'x')), UInt8", "sumMapFiltered(range(3)), Array(UInt8), Array(UInt8)", "uniqCombined(17), String",
+                                    "quantilesExactWeighted(0.5, 0.9), UInt64, UInt32", "topKIf(3), String, UInt8", "groupArrayResample(0, 10, 2)(3), UInt8, UInt8"]) + ")"
+    return r.pick(AGG_TYPES)
+
+
 def named_elem(r, depth):
     n = r.pick(TUPLE_NAMES)
     if n in ("date", "string", "uuid"):
@@ -388,8 +476,8 @@ def data_type(r, depth=0, ddl=False):
     if x == 19:
         return "Nested(" + ", ".join(r.pick(["n%d", "k%d", "v%d", "`a b%d`", "`ключ%d`", "key%d"]) % i + " " + r.pick(SIMPLE_TYPES)
                                      for i in range(1 + r.below(3))) + ")"
-    if x == 20:
-        return r.pick(AGG_TYPES)
+    if x == 20 or x == 28:
+        return agg_type(r)
     if x == 21:
         return r.pick(JSON_TYPES)
     if x == 24:
@@ -795,6 +883,8 @@ def cast_func(r, d, subq):
                    lambda: "CAST(" + col(r) + " lhs, toTypeName(x) AS tn)",
                    lambda: "CAST((" + e() + ") AS " + data_type(r) + ")",
                    lambda: "_CAST(" + e() + ", " + t() + ")",
+                   lambda: "CAST(" + e() + " AS " + agg_type(r) + ")",
+                   lambda: "CAST(" + col(r) + r.pick([" AS ", " as ", " AS lhs AS "]) + agg_type(r) + ")",
                    lambda: "accurateCastOrNull(" + e() + ", " + t() + ")"])()
 
 
@@ -826,8 +916,10 @@ def window_func(r, d):
 
 def cast_op(r, d):
     """the `::` operator, including array / tuple literal operands with non-literal elements"""
-    x = r.below(24)
+    x = r.below(26)
     e = lambda: expr(r, d + 2, False)
+    if x >= 24:
+        return r.pick([col(r), "(" + e() + ")", "NULL", "state", "f(x)", "arr[1]", "'\\0'"]) + "::" + agg_type(r)
     flt = lambda: r.pick(["Float64", "Float32", "Nullable(Float64)", "BFloat16", "String", "Decimal(10, 2)"])
     if x == 0:
         return col(r) + "::" + data_type(r)
@@ -1558,13 +1650,27 @@ def top_level_spaces(s):
             if j < 0:
                 return []
             i = j
+        elif c == "/" and s[i + 1:i + 2] == "*":
+            # a block comment (they nest)
+            depth, i = 1, i + 2
+            while i < n and depth:
+                if s[i:i + 2] == "/*":
+                    depth, i = depth + 1, i + 2
+                elif s[i:i + 2] == "*/":
+                    depth, i = depth - 1, i + 2
+                else:
+                    i += 1
+            continue
         elif c == " ":
             out.append(i)
         i += 1
     return out
 
 
-COMMENTS = ["/* c */", "/**/", "/* a /* nested */ b */", "/* -- */", "/* ' */", "/*+ hint */", "/* \" ` */", "/* ; */", "/*\\*/", "/* üñí */"]
+COMMENTS = ["/* c */", "/**/", "/* a /* nested */ b */", "/* -- */", "/* ' */", "/*+ hint */", "/* \" ` */", "/* ; */", "/*\\*/", "/* üñí */",
+            # look-alikes of the closing mark: `/*/` opens a level (it never closes one), also at nesting depth 2
+            "/* a /* tmp/*/2024 */ b */ c */", "/* /* x/*/y */ */ */", "/*/ x */", "/***/", "/* ** // */", "/*/**/*/", "/* a /* b; */ c; */",
+            "/* *\\/ still inside */", "/* /* /*/ 3 */ 2 */ 1 */"]
 
 
 def decorate(r, s):
